@@ -3,6 +3,8 @@ package dsim
 import (
 	"fmt"
 	"io"
+	"net"
+	"sort"
 	"strings"
 	"sync"
 
@@ -46,6 +48,7 @@ func init() {
 			// connection (and whose handshake notifications nobody collects) must go on serving the other
 			{Name: "state-machine-stalled-cea", Weight: 1, Bubble: true, Run: func(e *Env) { smaRun(e, "C08") }},
 			{Name: "client-two-connections-blocked-handler", Weight: 1, Bubble: true, Run: c08ClientTwo},
+			{Name: "handler-closes-and-lingers", Weight: 1, Bubble: true, Run: c08CloseLingers},
 			{Name: "sweep-schedules", Bubble: true, Run: c08Sweep, SweepN: c08SweepN, QuickSweep: true, Exhaustive: true,
 				SweepNote: "2 connections x 2 messages: every interleaving of the two connections' step sequences (deliver, deliver, release, release in both per-connection orders; 70 x 4) x every choice of which of the 4 handlers park (16): 4 480 schedules, each followed by the drain and the history oracle"},
 			{Name: "serve-yield", Weight: 3, Bubble: true, Run: func(e *Env) {
@@ -54,7 +57,7 @@ func init() {
 				newSrvWorld(e, cfg).run()
 			}},
 		},
-		MustProbes: []string{"yield-parked", "closenotify-from-task", "back-to-back-accept", "deferred-answer", "sctp-handler-parked", "answer-write-stalled", "late-connection", "other-connection-served-during-stalled-cea", "second-connection-served-while-first-handler-blocked"},
+		MustProbes: []string{"yield-parked", "closenotify-from-task", "back-to-back-accept", "deferred-answer", "sctp-handler-parked", "answer-write-stalled", "late-connection", "other-connection-served-during-stalled-cea", "second-connection-served-while-first-handler-blocked", "connection-accepted-while-closer-lingers"},
 	})
 	register(&Property{
 		ID: "C09", Level: "exploration",
@@ -359,5 +362,180 @@ func c15StuckWrite(e *Env) {
 	case err := <-serveRet:
 		e.Fail("C15/serve-returned", "Server.Serve returned %v while the listener was open", err)
 	default:
+	}
+}
+
+// c08CloseLingers: a handler closes its own connection and keeps running for a while; in that
+// window further connections are accepted and served. Whatever the library recycles from the
+// closed connection, the newcomers' messages are still handled one at a time, in order, by
+// their own connection, and the closer's connection handles nothing more.
+func c08CloseLingers(e *Env) {
+	t := e.T
+	e.TrustWait = false
+	lis := newSimListener(e)
+	mux := diam.NewServeMux()
+	var mu sync.Mutex
+	type ent struct {
+		tag   string
+		local string
+	}
+	var enters []ent
+	active := map[string]int{} // per connection letter
+	overlap := ""
+	gates := map[string]chan struct{}{}
+	parkTags := map[string]bool{"A0": true, "B0": t.Chance(2, 3), "C0": t.Chance(1, 2)}
+	mux.HandleFunc("ALL", func(c diam.Conn, m *diam.Message) {
+		tag := "?"
+		if len(m.AVP) > 0 {
+			tag = string(m.AVP[0].Data.Serialize())
+		}
+		local := ""
+		if la := c.RemoteAddr(); la != nil {
+			local = la.String()
+		}
+		mu.Lock()
+		enters = append(enters, ent{tag, local})
+		k := tag[:1]
+		if active[k] > 0 {
+			overlap = tag
+		}
+		active[k]++
+		var gate chan struct{}
+		if parkTags[tag] {
+			gate = make(chan struct{})
+			gates[tag] = gate
+			e.ParkBegin(true)
+		}
+		mu.Unlock()
+		if tag == "A0" {
+			c.Close() // the handler gives up its connection, and is not done yet
+		}
+		if gate != nil {
+			<-gate
+		}
+		mu.Lock()
+		active[k]--
+		mu.Unlock()
+	})
+	srv := &diam.Server{Handler: mux, Dict: simDict()}
+	go srv.Serve(lis)
+	addr := map[string]string{}
+	mk := func(name string, port int) *SimConn {
+		ra := &net.TCPAddr{IP: net.IPv4(10, 5, 5, byte(port%250)), Port: port}
+		sc := newSimConn(e, name, drawAddr(t, 3868), ra)
+		addr[name] = ra.String()
+		lis.Connect(sc)
+		return sc
+	}
+	req := func(tag string, hbh uint32) []byte {
+		return RefMsg{Cmd: 900, Flags: 0x80, HbH: hbh, E2E: hbh, AVPs: []RefAVP{{Code: avpSimOctets, Data: []byte(tag)}}}.Bytes()
+	}
+	release := func(tag string) {
+		mu.Lock()
+		g := gates[tag]
+		delete(gates, tag)
+		mu.Unlock()
+		if g != nil {
+			e.ParkEnd(true)
+			close(g)
+			e.Quiesce()
+		}
+	}
+	a := mk("A", 42001)
+	var others []*SimConn
+	defer func() {
+		mu.Lock()
+		var left []string
+		for tg := range gates {
+			left = append(left, tg)
+		}
+		mu.Unlock()
+		sort.Strings(left)
+		for _, tg := range left {
+			release(tg)
+		}
+		for _, sc := range append([]*SimConn{a}, others...) {
+			sc.EndRead(io.EOF, false)
+		}
+		lis.Close()
+		e.Quiesce()
+	}()
+	a.Deliver(append(req("A0", 1), req("A1", 2)...))
+	e.Quiesce()
+	mu.Lock()
+	lingering := gates["A0"] != nil
+	mu.Unlock()
+	if !lingering || !a.Closed() {
+		e.Harness("the closing handler did not run as planned")
+	}
+	// newcomers while the closer lingers
+	b := mk("B", 42002)
+	others = append(others, b)
+	b.Deliver(append(req("B0", 3), req("B1", 4)...))
+	e.Quiesce()
+	var c *SimConn
+	if t.Chance(1, 2) {
+		c = mk("C", 42003)
+		others = append(others, c)
+		c.Deliver(append(req("C0", 5), req("C1", 6)...))
+		e.Quiesce()
+	}
+	e.Probe("connection-accepted-while-closer-lingers")
+	e.NonTrivial()
+	check := func(when string) bool {
+		mu.Lock()
+		defer mu.Unlock()
+		if overlap != "" {
+			e.Fail("C08/overlap", "%s: the handler for %s was started while the handler for the previous message of that connection had not returned", when, overlap)
+			return false
+		}
+		seen := map[string]int{}
+		last := map[string]int{}
+		for _, en := range enters {
+			seen[en.tag]++
+			k := en.tag[:1]
+			if en.local != addr[k] {
+				e.Fail("C08/wrong-connection", "%s: message %s was handed to a handler with the Conn of %s (expected %s)", when, en.tag, en.local, addr[k])
+				return false
+			}
+			n := int(en.tag[1] - '0')
+			if seen[en.tag] > 1 || n < last[k] {
+				e.Fail("C08/duplicate-or-reordered", "%s: handlers saw %v", when, enters)
+				return false
+			}
+			last[k] = n
+		}
+		return true
+	}
+	if !check("with the closing handler still running") {
+		return
+	}
+	// the closer returns; then the parked newcomers are released in a drawn order
+	order := []string{"A0", "B0", "C0"}
+	for i := len(order) - 1; i > 0; i-- {
+		j := t.Draw(i + 1)
+		order[i], order[j] = order[j], order[i]
+	}
+	for _, tg := range order {
+		release(tg)
+		if !check("after releasing " + tg) {
+			return
+		}
+	}
+	mu.Lock()
+	got := map[string]bool{}
+	for _, en := range enters {
+		got[en.tag] = true
+	}
+	mu.Unlock()
+	want := []string{"B0", "B1"}
+	if c != nil {
+		want = append(want, "C0", "C1")
+	}
+	for _, tg := range want {
+		if !got[tg] {
+			e.Fail("C08/message-lost", "message %s of a connection accepted while another connection's handler lingered after closing was never handled (handled: %v)", tg, enters)
+			return
+		}
 	}
 }
